@@ -2,11 +2,13 @@ import MosnVerif.Gen.Route
 /-!
 # Model of MOSN's router (C04): `NewRouters`, `findVirtualHost`, rule matching  (core Lean only)
 
-Mirrors pkg/router/{routers_impl.go, virtualhost.go, http_rule.go, rpc_rule.go, variable_rule.go, configutility.go}.
-The lookup `findHighestPriorityIndex`, the sort comparison `Less`, and the matcher functions
-(`StringMatch.Matches`, header conjunction, http/rpc rule `Match`) are **regenerated** from the Go source
-(`Gen.Route.*`) and used here as they are.  `Spec` (bottom of the file) is the documented behaviour written
-declaratively and independently of the regenerated code.
+Mirrors pkg/router/{routers_impl.go, virtualhost.go, http_rule.go, rpc_rule.go, variable_rule.go, dsl_rule.go,
+configutility.go} **after** the four `fix:` commits recorded in KNOWN_FINDINGS.txt.
+`findVirtualHost`, the lookup `findHighestPriorityIndex`, the sort comparison `Less`, the matcher functions
+(`StringMatch.Matches`, header conjunction, http / rpc / variable rule `Match`) and the two entry loops
+`GetRouteFromEntries` / `GetAllRoutesFromEntries` are **regenerated** from the Go source (`Gen.Route.*`) and used here
+as they are; the table construction (`generateHostWithPortConfig`), `NewRouteBase` and the DSL rule are hand-modelled.
+`Spec` (bottom of the file) is the documented behaviour written declaratively from the configuration alone.
 -/
 namespace MosnVerif.Model.Route
 open MosnVerif.Gen.Route
@@ -108,7 +110,7 @@ abbrev Config := List VHostCfg
 inductive Err
   | nilConfig | noVirtualHost | noVirtualHostPort | duplicateVirtualHost | duplicateHostPort
   | badRegex        -- regexp.Compile error of a route's path regex (NewRouteBase)
-  | badVariable     -- a variable matcher that ParseToVariableMatchItem rejects (assumption: not configured)
+  | badVariable     -- a variable matcher that ParseToVariableMatchItem rejects (NewRouteBase refuses the route, fix ae5aa1f19)
 deriving DecidableEq, Repr
 
 /-! ## rules (`NewRouteBase`) -/
@@ -142,7 +144,8 @@ def createHttp : List HeaderCfg → HttpHeaderMatcher → HttpHeaderMatcher
       | some kv => createHttp r { m with headers := m.headers ++ [kv] }
       | none => createHttp r m
 
-/-- `ParseToVariableMatchItem` (`none` = the nil item the Go code returns for a bad regex / model) -/
+/-- `ParseToVariableMatchItem` (`none` = the nil item the Go code returns for a bad regex / model; `NewRouteBase`
+then fails) -/
 def parseVarItem (v : VarCfg) : Option VarItem :=
   let value := if v.value = [] then none else some v.value
   let rxp : Option (Option RegexId) := match v.regex with
@@ -304,7 +307,8 @@ def matchRule (rx : RxOracle) (req : Req) : Rule → Bool
   | .path hm p => pathMatch rx req.var req.hdr hm p
   | .regex hm id => regexMatch rx req.var req.hdr hm id
   | .variable items => variableMatch rx req.var items
-  | .dsl ids => ids.all (fun i => req.dsl i == some true)   -- DslExpressionRouteRuleImpl.Match (hand-modelled)
+  -- DslExpressionRouteRuleImpl.Match (hand-modelled): an evaluation error or a non-boolean value does not hold
+  | .dsl ids => ids.all (fun i => req.dsl i == some true)
   | .rpc fast hm => rpcMatch rx req.hdr fast hm
 
 /-- `route.Match(ctx, headers)` on a rule paired with its position: the pair itself or nil -/
